@@ -184,17 +184,8 @@ func (l *SList[T]) Find(val T) (*SingleNode[T], bool) {
 // Each iterates over the elements of the linked list and invokes
 // the callback function, having as parameter the nodes' value.
 func (l *SList[T]) Each(fn func(value T)) {
-	head := &l.SingleNode
-	node := l.SingleNode
-
-	for {
-		fn(l.Value)
-		if head.next == nil {
-			break
-		}
-		l.SingleNode = *head.next
+	// Walk with a local pointer: the list itself is not touched, whatever the callback does.
+	for node := &l.SingleNode; node != nil; node = node.next {
+		fn(node.Value)
 	}
-
-	// Move the pointer back to the first node.
-	l.SingleNode = node
 }
